@@ -82,10 +82,13 @@ Section Order.
       In c (trace_of debug p n) ->
       c_step c < n /\
       exists ms m, get p (c_group c) = Some ms /\ nth_error ms (c_pos c) = Some m /\
-                   enabled m = true /\ c_name c = name m /\ c_args c = args m.
+                   enabled m = true /\ c_name c = name m /\ c_args c = recv (c_step c) m /\
+                   (grows m = false -> c_args c = args m).
   Proof.
     intros debug p n c H. unfold trace_of in H. rewrite run_readouts_fst in H.
-    apply in_tr_readouts in H. tauto.
+    apply in_tr_readouts in H. destruct H as (H1 & _ & ms & m & A & B & C & D & E).
+    split; [exact H1|]. exists ms, m. repeat split; auto.
+    intro G. rewrite E. unfold recv. rewrite G. reflexivity.
   Qed.
 
   Lemma run_debug_irrelevant :
